@@ -143,6 +143,28 @@ add("unsync_cache.rs", "c17_unbounded_never_evicts_for_size", {"C17", "C03"}, "q
 add("unsync_cache.rs", "c04_capacity_arithmetic", {"C04", "C03", "C12"}, "quick", 30, "capacity predicates for all (weighted_size, weight, capacity)", "weighted_size < 2^63")
 
 # ------------------------------------------------------------------ S: sync cache, function level, container models
+QUICK_SYNC = {
+    "s_get0_live": {"C01", "C03", "C08", "C14"},
+    "s_contains_absent": {"C01", "C14", "C15"},
+    "s_insert_update0": {"C01", "C05"},
+    "s_iterfilter0_before_watermark_no_expiry": {"C01", "C16", "C07"},
+    "s_get0_ttl_deadline": {"C05"},
+    "s_contains0_ttl_deadline": {"C05", "C15"},
+    "s_get0_tti_deadline": {"C06"},
+    "s_contains1_tti_1ns_before": {"C06"},
+    "s_apply_reads_hit0": {"C06", "C08", "C12"},
+    "s_apply_reads_miss": {"C14"},
+    "s_contains0_before_watermark": {"C07"},
+    "s_contains1_same_reading_as_watermark": {"C07"},
+    "s_get1_same_reading_as_watermark": {"C07"},
+    "s_invalidate_all_2": {"C07"},
+    "s_iterfilter0_ttl_deadline": {"C16"},
+    "s_iterfilter1_live": {"C16", "C15"},
+    "l_upsert_update_n1": {"C03", "C04", "C10"},
+    "l_upsert_update_n2_lru_ttl": {"C06", "C10", "C12"},
+    "l_remove_n1": {"C10", "C11"},
+    "l_remove_n2_mru": {"C07", "C08", "C10"},
+}
 def _sync():
     src = open(os.path.join(os.path.dirname(os.path.dirname(os.path.abspath(__file__))), "kani", "sync_base_cache.rs")).read()
     bs = "sync cache at function level; dashmap/crossbeam-channel replaced by single-threaded models; n<=2 admitted residents (keys concrete), concrete capacity/weights/time class; values, sketch, read timestamps symbolic; housekeeper excluded (no inline maintenance)"
@@ -193,12 +215,13 @@ def _sync():
             props |= {"C05", "C06", "C07", "C10", "C03"}; prim |= {"C10", "C05" if ttl else "C06" if tti else "C07"}
         if name in ("s_get0_live", "l_upsert_update_n2_lru_ttl", "l_upsert_admission_n2", "l_remove_n2_mru", "l_evict_lru_exact_n2", "l_purge_one_ttl_deadline", "s_apply_reads_hit0"):
             prim |= {"C08"}
-        add("sync_base_cache.rs", name, props, "quick", 60, f"sync {fn[2:]}{rest} [{name}]", bs, quick=prim,
+        prim = set(QUICK_SYNC.get(name, ()))
+        add("sync_base_cache.rs", name, props, "quick", 120, f"sync {fn[2:]}{rest} [{name}]", bs, quick=prim,
             required=("admitted over victims", "newcomer rejected") if name.startswith("l_upsert_admission") else ())
 _sync()
 add("sync_base_cache.rs", "s_k1_is_expired_wo", {"C05", "C07", "C08"}, "quick", 5, "sync is_expired_entry_wo <=> lm < valid_after or lm + ttl <= now", "all instants/durations symbolic, ns resolution")
 add("sync_base_cache.rs", "s_k1_is_expired_ao", {"C06", "C07", "C08"}, "quick", 5, "sync is_expired_entry_ao <=> la < valid_after or la + tti <= now", "all instants/durations symbolic, ns resolution")
-add("sync_base_cache.rs", "sync_twin_must_fail", {"C01", "C03", "C04", "C05", "C06", "C07", "C10", "C12", "C13", "C15", "C16"}, "quick", 30, "vacuity twin of the sync family", "n=2", expect_fail=True)
+add("sync_base_cache.rs", "sync_twin_must_fail", {"C01", "C05", "C06", "C07", "C10"}, "quick", 60, "vacuity twin of the sync family", "n=2", expect_fail=True)
 
 # ------------------------------------------------------------------ C09: housekeeper / back-pressure
 add("housekeeper.rs", "try_sync_releases_the_flag_on_every_path", {"C09", "C08"}, "quick", 10, "Housekeeper::try_sync flag discipline for an arbitrary InnerSync", "all clock readings; flag free/busy")
@@ -207,10 +230,21 @@ add("sync_cache.rs", "schedule_write_op_on_a_full_queue_runs_maintenance_and_ret
 add("sync_cache.rs", "schedule_write_op_with_room_enqueues_once", {"C09", "C08"}, "quick", 60, "schedule_write_op with room: flag free or busy", "model queue capacity 2")
 
 PROPS = {}
+QUICK_UNSYNC_CAP = 14
 def plan(prop, tier):
     if tier == "thorough":
         return [h for h in H if prop in h.props]
-    return [h for h in H if prop in h.props and h.tier == "quick" and prop in h.quick]
+    q = [h for h in H if prop in h.props and h.tier == "quick" and prop in h.quick]
+    u = [h for h in q if h.file == "unsync_cache.rs" and not h.expect_fail and h.cost >= 30]
+    if len(u) > QUICK_UNSYNC_CAP:
+        # deterministic thinning that keeps the spread over operation kinds: every k-th in registration order
+        keep, k = set(), len(u) / QUICK_UNSYNC_CAP
+        i = 0.0
+        while int(i) < len(u) and len(keep) < QUICK_UNSYNC_CAP:
+            keep.add(u[int(i)].name)
+            i += k
+        q = [h for h in q if h not in u or h.name in keep]
+    return q
 
 def refresh_props():
     PROPS.clear()
